@@ -601,8 +601,11 @@ class DataLinkConnection(TransmissionControlObject):
         if rcvd_pdu.name not in self.DLC_PDU_NAMES:
             self.err("non connection mode pdu on data link connection")
             send_pdu = pdu.FrameReject.from_pdu(rcvd_pdu, flags="W", dlc=self)
-            self.close()
-            self.send_queue.append(send_pdu)
+            with self.lock:
+                # called from the llc thread: must not wait for a DM
+                self.state.SHUTDOWN = True
+                self.close()
+                self.send_queue.append(send_pdu)
             return
 
         if self.state.CLOSED:
